@@ -111,7 +111,7 @@ package flate
 //@   ensures[C04 end-input-drained] err == errEndInput ==> len(f.state.input) == 0
 //@   ensures f.state.phase != phaseFinish
 //@   ensures[C03 C04 state-inv] isInvalid(err) || inflOK(&f.state)
-//@   ensures[C03 discard-bound] -8 < f.state.bitsLen && f.state.bitsLen <= 64
+//@   ensures[C03 discard-bound] -64 <= f.state.bitsLen && f.state.bitsLen <= 64
 //@   ensures f.state.input != nil && len(f.state.input) <= old(len(f.state.input)) && remBits(&f.state) <= old(remBits(&f.state))
 //@   loop 1 invariant 0 <= idx && idx <= 65536 && idx >= f.writePos && same(f.writePos) && same(f.readPos) && f.state.input != nil && len(f.state.input) <= old(len(f.state.input)) && sameobj(f.state.input, old(f.state.input)) && remBits(&f.state) <= old(remBits(&f.state)) && err == nil && inflOK(&f.state) && tabsOK(&f.state) && f.state.phase != phaseFinish && len(output) == 65536 && sameobj(output, f.historyBuffer[:])
 
@@ -179,7 +179,7 @@ package flate
 //@   requires stBase(state)
 //@   modifies state.bits, state.bitsLen, state.input, *ctx
 //@   ensures err == nil || err == errEndInput || err == errInvalidBlock
-//@   ensures stBase(state) && state.bitsLen > -8 && remBits(state) <= old(remBits(state)) && len(state.input) <= old(len(state.input)) && sameobj(state.input, old(state.input)) && (state.input == nil) == (old(state.input) == nil)
+//@   ensures stBase(state) && state.bitsLen >= -64 && remBits(state) <= old(remBits(state)) && len(state.input) <= old(len(state.input)) && sameobj(state.input, old(state.input)) && (state.input == nil) == (old(state.input) == nil)
 
 //@ func (*inflate).codeLenCodes
 //@   trusted "not yet verified: code length code lengths (HCLEN) and their decoding table"
@@ -218,7 +218,7 @@ package flate
 //@   ensures[C03 classify] result == nil || result == errEndInput || result == errInvalidBlock
 //@   ensures[C02 btype] result == nil ==> state.phase == phaseHeaderDecoded && state.bitsLen >= 0
 //@   ensures result != nil ==> same(state.phase)
-//@   ensures result == errInvalidBlock ==> state.bitsLen > -8
+//@   ensures result == errInvalidBlock ==> state.bitsLen >= -64
 //@   ensures stBase(state) && remBits(state) <= old(remBits(state)) && len(state.input) <= old(len(state.input)) && sameobj(state.input, old(state.input)) && (state.input == nil) == (old(state.input) == nil)
 
 //@ func (*inflate).tryDecodeHeader
@@ -229,7 +229,7 @@ package flate
 //@   ensures[C02 C03 btype] err == nil ==> (state.phase == phaseLitBlock || state.phase == phaseHeaderDecoded) && state.bitsLen >= 0
 //@   ensures err == nil && state.phase == phaseLitBlock ==> state.bitsLen % 8 == 0 && 0 <= state.bitsLen && state.bitsLen <= 32 && 0 <= state.litBlockLength && state.litBlockLength <= 65535
 //@   ensures err != nil ==> same(state.phase)
-//@   ensures err == errInvalidBlock ==> state.bitsLen > -8
+//@   ensures err == errInvalidBlock ==> state.bitsLen >= -64
 //@   ensures stBase(state) && remBits(state) <= old(remBits(state)) && len(state.input) <= old(len(state.input)) && sameobj(state.input, old(state.input)) && (state.input == nil) == (old(state.input) == nil) && state.bfinal <= 1
 //@   ensures@5[C03 btype] btype == 3
 //@   assumes old(state.phase) == phaseDecodingHeader && old(int(state.headerBuffered)) <= old(len(state.input)) ==> old(len(state.input)) - len(state.input) >= old(int(state.headerBuffered)) && old(remBits(state)) - remBits(state) >= 8*old(int(state.headerBuffered))
@@ -243,7 +243,7 @@ package flate
 //@   ensures err == nil && state.phase == phaseLitBlock ==> state.bitsLen % 8 == 0 && 0 <= state.bitsLen && state.bitsLen <= 32 && 0 <= state.litBlockLength && state.litBlockLength <= 65535
 //@   ensures[C04 stage] err == errEndInput ==> state.bits == old(state.bits) && state.bitsLen == old(state.bitsLen) && len(state.input) == 0 && state.phase == phaseDecodingHeader && int(state.headerBuffered) == old(int(state.headerBuffered)) + (old(len(state.input)) < 328 - old(int(state.headerBuffered)) ? old(len(state.input)) : 328 - old(int(state.headerBuffered)))
 //@   ensures[C04 stage-reset] err != errEndInput ==> state.headerBuffered == 0
-//@   ensures err == errInvalidBlock ==> same(state.phase) && state.bitsLen > -8 && state.bitsLen <= 64
+//@   ensures err == errInvalidBlock ==> same(state.phase) && state.bitsLen >= -64 && state.bitsLen <= 64
 //@   ensures[C04 C05 accounting] remBits(state) <= old(remBits(state))
 //@   ensures (err != errInvalidBlock ==> stBase(state) && state.bitsLen >= 0) && len(state.input) <= old(len(state.input)) && sameobj(state.input, old(state.input)) && state.input != nil && state.bfinal <= 1
 
